@@ -1798,10 +1798,9 @@ theorem head?_eq_some_name {bs : List Block} {e : String}
 theorem funcWith_spec {blk : BState → Block → Except RErr BState} (hblk : BlkSpec blk)
     {G : List String} {gdone : List String} {funcsDone : List Func} {st : BState} (f : Func)
     (hM : MInv G gdone funcsDone st) (hgsub : ∀ x, x ∈ gdone → x ∈ G) (hfn : f.name ∈ G)
-    (hfresh : f.name ∉ gdone) (hfuncs : ∀ g ∈ funcsDone, funcGlobOk G g) (hcore : funcCore G f = true) :
+    (hfresh : f.name ∉ gdone) (hfuncs : ∀ g ∈ funcsDone, funcGlobOk G g) (F : FuncFacts G f) :
     ∃ st', funcWith blk st f = .ok st' ∧ MInv G (f.name :: gdone) (funcsDone ++ [f]) st' ∧
       st'.json = st.json ∧ funcGlobOk G f := by
-  have F := funcFacts_of_core hcore
   -- 1. define the subroutine at module level
   have hnotg : f.name ∉ st.globals := fun hm => hfresh ((hM.globals _).1 hm)
   have hfid : st.funcs.map (patchFunc f.name (.glob f.name) .ptr) = st.funcs := by
@@ -1944,7 +1943,7 @@ theorem funcsWith_spec {blk : BState → Block → Except RErr BState} (hblk : B
     ∀ (fs : List Func) (gdone : List String) (funcsDone : List Func) (st : BState),
       MInv G gdone funcsDone st → (∀ x, x ∈ gdone → x ∈ G) →
       (∀ f, f ∈ fs → f.name ∈ G) → (gdone ++ fs.map (·.name)).Nodup →
-      (∀ g ∈ funcsDone, funcGlobOk G g) → (∀ f, f ∈ fs → funcCore G f = true) →
+      (∀ g ∈ funcsDone, funcGlobOk G g) → (∀ f, f ∈ fs → FuncFacts G f) →
       ∃ st', funcsWith blk st fs = .ok st' ∧ MInv G ((fs.map (·.name)).reverse ++ gdone) (funcsDone ++ fs) st' ∧
         st'.json = st.json := by
   intro fs
